@@ -3,6 +3,7 @@ CONSTANTS
   Ctls = {"c1", "c2", "c3"}
   Depth = 5
   Upd = {"c2"}
+  UpdAny = TRUE
 CONSTRAINT Bound
 INVARIANT Emit1
 CHECK_DEADLOCK FALSE
